@@ -116,6 +116,45 @@ def scalar_forms(k):
         ex(nm, f'a {op} b')
     ex('logand', 'a && b')
     ex('logor', 'a || b')
+    # LITERAL operands on either side of every binary operator (code generators special-case operands that are constants: zero,
+    # one, minus one, a power of two, the typed zero `0.0L`; each special path has its own stack / x87 discipline).  Defined
+    # behaviour only: no division by a zero literal, no negative left operand of <<, shift counts below the width.
+    if k == 'ptr':
+        lits = [('z', '0')]
+    elif is_flt:
+        sfx = {'float': 'f', 'double': '', 'ldouble': 'L'}[k]
+        lits = [('tz', '0.0' + sfx), ('tnz', '-0.0' + sfx), ('t1', '1.0' + sfx), ('t2', '2.0' + sfx), ('z', '0'), ('m1', '-1')]
+    else:
+        lits = [('z', '0'), ('one', '1'), ('p8', '8')] + ([('m1', '-1')] if k != 'bool' else [])
+    for ln, lit in lits:
+        zero = ln in ('z', 'tz', 'tnz')
+        for op, nm in (('==', 'eq'), ('!=', 'ne'), ('<', 'lt'), ('<=', 'le'), ('>', 'gt'), ('>=', 'ge'), ('&&', 'logand'), ('||', 'logor')):
+            if k == 'ptr' and op in ('<', '<=', '>', '>='):
+                continue
+            ex(f'lit_{nm}_{ln}_r', f'a {op} {lit}')
+            ex(f'lit_{nm}_{ln}_l', f'{lit} {op} a')
+        if k == 'ptr':
+            continue
+        for op, nm in (('+', 'add'), ('-', 'sub'), ('*', 'mul'), ('/', 'div')):
+            if not (op == '/' and zero):
+                ex(f'lit_{nm}_{ln}_r', f'a {op} {lit}')
+            if not (op == '/' and k == 'bool'):
+                ex(f'lit_{nm}_{ln}_l', f'{lit} {op} {"a" if op != "/" else "(a ? a : b)"}')
+        if is_int:
+            for op, nm in (('&', 'and'), ('|', 'or'), ('^', 'xor')):
+                ex(f'lit_{nm}_{ln}_r', f'a {op} {lit}')
+                ex(f'lit_{nm}_{ln}_l', f'{lit} {op} a')
+            if not zero:
+                ex(f'lit_mod_{ln}_r', f'a % {lit}')
+            if k != 'bool':
+                ex(f'lit_mod_{ln}_l', f'{lit} % a')
+            if ln != 'm1':
+                ex(f'lit_shl_{ln}_r', f'(a & 15) << {lit}')
+                ex(f'lit_shl_{ln}_l', f'{lit} << (a & 7)')
+                ex(f'lit_shr_{ln}_r', f'a >> {lit}')
+            ex(f'lit_shr_{ln}_l', f'{lit} >> (a & 7)')
+        ex(f'lit_cond_{ln}', f'a ? {lit} : b')
+        ex(f'lit_opassign_{ln}', f'r = a, r += {lit}, r *= {lit}')
     ex('cond', 'a ? a : b')
     ex('cond2', 'b ? a : b')
     ex('comma', 'a, b')
